@@ -127,3 +127,16 @@ Theorem C06_py_getlbastatus_parse_inverts_build : forall (dvs : list (list (Stri
   exists built, call_fun all_tables py_program f GLSM [PDict [("lbas", PList (map gls_dict dvs))]] = Ok (PBytes built) /\
     call_fun all_tables py_program f GLS [PBytes built] = Ok (PDict [("lbas", PList (map gls_dict dvs))]).
 Proof. exact getlbastatus_parse_inverts_build. Qed.
+
+(* REPORT LUNS: the regenerated builder puts the LUNs in the order of the caller's LIST (whatever the keys are called: lun0 ... lun10 ...), with
+   LUN LIST LENGTH = 8 per entry — for any number of entries; and decoding what was built from lun0 .. lun<n-1> returns exactly those entries *)
+Theorem C06_py_reportluns_build : forall (all : list (String.string * N)) f, (1 <= f)%nat ->
+  call_fun all_tables py_program f RLM [PDict [("luns", PList (map lun_entry all))]]
+  = Ok (PBytes (int_to_ba (N.of_nat (8 * length all)) 4 ++ zeros 4 ++ concat (map (fun kv => int_to_ba (snd kv) 8) all))%list).
+Proof. exact reportluns_build_exact. Qed.
+
+Theorem C06_py_reportluns_parse_inverts_build : forall (vs : list N) f,
+  Forall (fun v => v < 2 ^ 64) vs -> (Z.of_nat (length vs) <= 100000000)%Z -> (8 * length vs + 11 <= f)%nat ->
+  exists built, call_fun all_tables py_program f RLM [PDict [("luns", PList (map lun_entry (numbered 0 vs)))]] = Ok (PBytes built) /\
+    call_fun all_tables py_program f Proofs.PyTotal.RL [PBytes built] = Ok (PDict [("luns", PList (map lun_entry (numbered 0 vs)))]).
+Proof. exact reportluns_parse_inverts_build. Qed.
